@@ -194,7 +194,7 @@ fn line_ends(text: &str) -> Vec<LineEnd> {
 /// directly after it, at line ends chosen by `mode`: 0 = any line end (one in three), 1 = every line whose code ends
 /// with a closing bracket (or a closing bracket and a comma), 2 = every line whose code ends with a comma, 3 = every
 /// line end. Strings and existing comments are left alone; no blank line is added or removed.
-fn commentate(rng: &mut Rng, text: &str, mode: usize) -> String {
+pub fn commentate(rng: &mut Rng, text: &str, mode: usize) -> String {
     if !text.is_ascii() {
         return text.to_string();
     }
@@ -256,7 +256,7 @@ fn commentate(rng: &mut Rng, text: &str, mode: usize) -> String {
 
 /// Unformatted text: line breaks in code (not behind a line comment, not inside a string or block comment, not at a
 /// blank line) become a space, three out of four; the line a rule has to break again keeps what was behind it.
-fn joinlines(rng: &mut Rng, text: &str) -> String {
+pub fn joinlines(rng: &mut Rng, text: &str) -> String {
     if !text.is_ascii() {
         return text.to_string();
     }
@@ -282,7 +282,7 @@ fn joinlines(rng: &mut Rng, text: &str) -> String {
 /// The layout options of the configuration file, each with its values other than the default and with what a text has to
 /// contain (upper-cased) for the option to have something to act on (candidates are drawn among such texts; whether the
 /// option then makes a difference is decided by running lint and fix with and without it).
-const KNOBS: &[(&str, &str, &[&str], &[&str])] = &[
+pub const KNOBS: &[(&str, &str, &[&str], &[&str])] = &[
     ("rules:layout.long_lines", "ignore_comment_lines", &["True"], &["--", "/*"]),
     ("rules:layout.long_lines", "ignore_comment_clauses", &["True"], &["COMMENT"]),
     ("rules:layout.select_targets", "wildcard_policy", &["multiple"], &["*"]),
@@ -301,7 +301,7 @@ const KNOBS: &[(&str, &str, &[&str], &[&str])] = &[
     ("layout:type:comparison_operator", "line_position", &["trailing"], &["=", "<", ">"]),
 ];
 /// configuration text (behind the `[sqruff]` keys) for a choice of (knob, value index) pairs
-fn knob_config(limit: Option<usize>, choice: &[(usize, usize)]) -> String {
+pub fn knob_config(limit: Option<usize>, choice: &[(usize, usize)]) -> String {
     let mut out = String::new();
     if let Some(l) = limit {
         out.push_str(&format!("max_line_length = {}\n", l));
